@@ -148,7 +148,7 @@ func c19Scenarios(tier string) []*mc.Scenario {
 	} else {
 		add("compactor-writer", c07SchedScenario(c07Sched{hx.Mem, [][]reqKind{{rDelOK}}, false, false}))
 	}
-	add("list-then-watch", c06Scenario(c06Cfg{hx.Mem, [][]wop{{wCreateX, wDeleteP}}, false}))
+	add("list-then-watch", c06Scenario(c06Cfg{hx.Mem, [][]wop{{wCreateX, wDeleteP}}, false, false}))
 	add("two-compactions", &mc.Scenario{Body: func(x *mc.X) {
 		w := newWorld(hx.Mem, 16)
 		defer w.close()
